@@ -2,6 +2,8 @@
 package fieldmask
 
 import (
+	"errors"
+
 	"github.com/cloudwego/thriftgo/parser"
 	"github.com/cloudwego/thriftgo/thrift_reflection"
 
@@ -343,4 +345,296 @@ func zzQStepAs(p, q zzQStep) zzQStep {
 		q.kind = p.kind
 	}
 	return q
+}
+
+// ---- JSON transport ------------------------------------------------------------------------------
+//
+// encoding/json is not encodable (reflection driven). What the library itself does with a JSON
+// document is TransferFrom: it turns the decoded transfer tree into a mask. The harnesses below
+// run the real MarshalJSON and the real TransferFrom; the two uses of encoding/json in between are
+// environment models: zzJSONPath (json.Unmarshal of one path segment into *fieldID / *int /
+// *string) and zzParseTransfer (the outer decode of a document that follows MarshalJSON's schema).
+// Natively (replay, differential) the real encoding/json runs instead of both models.
+
+// zzJSONInt: a JSON integer literal without surrounding white space.
+func zzJSONInt(data []byte) (int, bool) {
+	i, neg := 0, false
+	if len(data) > 0 && data[0] == '-' {
+		neg, i = true, 1
+	}
+	if i >= len(data) || (data[i] == '0' && len(data) != i+1) {
+		return 0, false
+	}
+	n := 0
+	for ; i < len(data); i++ {
+		if data[i] < '0' || data[i] > '9' {
+			return 0, false
+		}
+		n = n*10 + int(data[i]-'0')
+	}
+	if neg {
+		n = -n
+	}
+	return n, true
+}
+
+func zzJSONPath(data []byte, v interface{}) error {
+	switch p := v.(type) {
+	case *fieldID:
+		n, ok := zzJSONInt(data)
+		if !ok {
+			return errors.New("json: not an integer")
+		}
+		*p = fieldID(n)
+	case *int:
+		n, ok := zzJSONInt(data)
+		if !ok {
+			return errors.New("json: not an integer")
+		}
+		*p = n
+	case *string:
+		if len(data) < 2 || data[0] != '"' || data[len(data)-1] != '"' {
+			return errors.New("json: not a string")
+		}
+		in := data[1 : len(data)-1]
+		for _, c := range in {
+			if c == '"' || c < 0x20 {
+				return errors.New("json: invalid string")
+			}
+			zzrt.Assume(c != '\\' && c < 0x7f) // escapes and non-ASCII text are outside the bound
+		}
+		*p = string(in)
+	default:
+		zzrt.Fail("json.Unmarshal into a target the model does not know")
+	}
+	return nil
+}
+
+type zzP struct {
+	b   []byte
+	i   int
+	bad bool
+}
+
+func (p *zzP) peek(c byte) bool { return !p.bad && p.i < len(p.b) && p.b[p.i] == c }
+func (p *zzP) lit(s string) {
+	if p.bad {
+		return
+	}
+	if len(p.b)-p.i < len(s) || string(p.b[p.i:p.i+len(s)]) != s {
+		p.bad = true
+		return
+	}
+	p.i += len(s)
+}
+func (p *zzP) value() []byte {
+	start := p.i
+	if p.peek('"') {
+		p.i++
+		for p.i < len(p.b) && p.b[p.i] != '"' {
+			if p.b[p.i] == '\\' {
+				p.i++
+			}
+			p.i++
+		}
+		p.i++
+	} else {
+		for p.i < len(p.b) && (p.b[p.i] == '-' || (p.b[p.i] >= '0' && p.b[p.i] <= '9')) {
+			p.i++
+		}
+	}
+	if p.i > len(p.b) || p.i == start {
+		p.bad = true
+		return nil
+	}
+	return p.b[start:p.i]
+}
+func (p *zzP) obj(depth int) (t fieldMaskTransfer) {
+	if depth > 8 {
+		p.bad = true
+		return
+	}
+	p.lit(`{"path":`)
+	t.Path = p.value()
+	p.lit(`,"type":"`)
+	s := p.i
+	for p.i < len(p.b) && p.b[p.i] != '"' {
+		p.i++
+	}
+	if !p.bad {
+		t.Type.UnmarshalText(p.b[s:p.i])
+	}
+	p.lit(`","is_black":`)
+	if p.peek('t') {
+		p.lit("true")
+		t.IsBlack = true
+	} else {
+		p.lit("false")
+	}
+	if p.peek(',') {
+		p.lit(`,"children":[`)
+		for !p.bad && !p.peek(']') {
+			if len(t.Children) > 0 {
+				p.lit(",")
+			}
+			t.Children = append(t.Children, p.obj(depth+1))
+		}
+		p.lit("]")
+	}
+	p.lit("}")
+	return
+}
+
+// zzFromJSON: the way back. Symbolically: schema parser + root check + the real TransferFrom with
+// the path-segment model; natively the real UnmarshalJSON.
+func zzFromJSON(text []byte) (*FieldMask, error) {
+	fm := new(FieldMask)
+	if !zzrt.Symbolic() {
+		err := fm.UnmarshalJSON(text)
+		return fm, err
+	}
+	zzrt.Override("encoding/json.Unmarshal", zzJSONPath)
+	p := &zzP{b: text}
+	tr := p.obj(0)
+	if p.bad || p.i != len(text) {
+		zzrt.Fail("the text written by MarshalJSON does not follow its documented schema")
+	}
+	if string(tr.Path) != `"$"` {
+		return fm, errors.New("fieldmask must begin with root path '$'")
+	}
+	err := fm.TransferFrom(&tr)
+	return fm, err
+}
+
+func zzJSONLists() [][]string {
+	ls := [][]string{}
+	for _, l := range zzQLists() {
+		ls = append(ls, l.text)
+	}
+	return append(ls,
+		[]string{"$.x", "$.a62", "$.a63", "$.a64", "$.a65[1]", "$.ml{\"k\"}[1].a", "$.ml{\"k\"}[1].b"}, // head and tail ids together
+		[]string{"$.sm{\"a\",\"b\"}.a", "$.im{0,7}", "$.st[*]", "$.ll[0][1,2]", "$.al.c[0]"},
+		[]string{"$.sm{*}", "$.im{*}.c[*]", "$.l[*]", "$.in.c"},
+	)
+}
+
+// H_C14_json: mask -> MarshalJSON -> mask answers every query identically (free query values on
+// 6 routes, level by level), and marshalling the second mask gives the same text (stable text).
+func H_C14_json(list, route, blackI int) {
+	black := blackI == 1
+	paths := zzJSONLists()[list]
+	fm, err := Options{BlackListMode: black}.NewFieldMask(zzDesc(), paths...)
+	zzrt.Assert(err == nil && fm != nil, "valid paths build a mask")
+	text, err := fm.MarshalJSON()
+	zzrt.Assert(err == nil, "a built mask marshals")
+	fm2, err := zzFromJSON(text)
+	zzrt.Assert(err == nil && fm2 != nil, "the text of MarshalJSON unmarshals")
+	text2, err := fm2.MarshalJSON()
+	zzrt.Assert(err == nil && string(text2) == string(text), "JSON text is stable over a round trip")
+	zzrt.Assert(fm.All() == fm2.All() && fm.IsBlack() == fm2.IsBlack() && fm.Type() == fm2.Type(), "root attributes")
+	q := zzQRoute(route)
+	a, b := fm, fm2
+	for k := 0; k < len(q); k++ {
+		var sa, sb *FieldMask
+		var ea, eb bool
+		switch q[k].kind {
+		case 0:
+			sa, ea = a.Field(int16(q[k].n))
+			sb, eb = b.Field(int16(q[k].n))
+		case 2:
+			sa, ea = a.Str(q[k].s)
+			sb, eb = b.Str(q[k].s)
+		default:
+			sa, ea = a.Int(q[k].n)
+			sb, eb = b.Int(q[k].n)
+		}
+		zzrt.Assert(ea == eb, "query level "+string(rune('1'+k))+": membership is the same after the JSON round trip")
+		zzrt.Assert(sa.Exist() == sb.Exist() && sa.All() == sb.All(), "query level "+string(rune('1'+k))+": sub-mask is the same after the JSON round trip")
+		if !ea || !sa.Exist() {
+			zzrt.Cover("end")
+			return
+		}
+		a, b = sa, sb
+	}
+	zzrt.Cover("end")
+}
+
+// H_C14_transfer: TransferFrom on an arbitrary decoded document (root of type rt, up to two
+// children, a grandchild below an only child, every type value of the enum, path segments of n
+// free bytes) never panics, and the mask it returns answers queries of EVERY kind (also a kind
+// that does not fit the node's type: the document, not the application, chose that type)
+// without panicking.
+func H_C14_transfer(n int, rt int) {
+	zzrt.Override("encoding/json.Unmarshal", zzJSONPath)
+	node := func(tag string) fieldMaskTransfer {
+		t := fieldMaskTransfer{Path: zzrt.Bytes(tag+"p", n), Type: FieldMaskType(zzrt.Byte(tag + "t")), IsBlack: zzrt.Bool(tag + "b")}
+		zzrt.Assume(t.Type <= FtIntMap) // UnmarshalText produces the enum's values only
+		for _, c := range t.Path {
+			zzrt.Assume(c > 0x20) // a RawMessage carries no white space around its value
+		}
+		return t
+	}
+	root := fieldMaskTransfer{Path: []byte(`"$"`), Type: FieldMaskType(rt), IsBlack: zzrt.Bool("rb")}
+	nc := zzrt.Choose("children", 3)
+	for i := 0; i < nc; i++ {
+		c := node("c")
+		if nc == 1 && zzrt.Bool("grandchild") {
+			c.Children = append(c.Children, node("g"))
+		}
+		root.Children = append(root.Children, c)
+	}
+	fm := new(FieldMask)
+	err := fm.TransferFrom(&root)
+	if err != nil {
+		zzrt.Cover("rejected")
+		return
+	}
+	zzrt.Cover("accepted")
+	// fixed query values: the subject is the shape of the document, and a symbolic query against
+	// a symbolic stored id only multiplies paths
+	s1, _ := fm.Field(1)
+	s2, _ := fm.Int(1)
+	s3, _ := fm.Str("k")
+	fm.Field(64)
+	fm.Field(-1)
+	for _, s := range []*FieldMask{s1, s2, s3} {
+		s.All()
+		s.Exist()
+		s.Field(1)
+		s.Int(1)
+		s.Str("k")
+	}
+}
+
+func zzJSONProbe(black bool, paths ...string) string {
+	fm, err := Options{BlackListMode: black}.NewFieldMask(zzDesc(), paths...)
+	if err != nil {
+		return "ERR " + err.Error()
+	}
+	text, _ := fm.MarshalJSON()
+	fm2, err := zzFromJSON(text)
+	if err != nil {
+		return "ERR2"
+	}
+	t2, _ := fm2.MarshalJSON()
+	out := string(text) + "|" + string(t2) + "|"
+	for id := int16(0); id < 10; id++ {
+		sub, ok := fm2.Field(id)
+		out += zzB(ok) + zzB(sub != nil) + zzB(sub.All())
+		for i := 0; i < 3; i++ {
+			s2, ok2 := sub.Int(i)
+			out += zzB(ok2) + zzB(s2 != nil)
+		}
+		s3, ok3 := sub.Str("k")
+		out += zzB(ok3) + zzB(s3 != nil) + " "
+	}
+	return out
+}
+
+// differential (engine with the two JSON models vs native with encoding/json)
+func D_C14_5() string {
+	return zzJSONProbe(false, "$.x", "$.l[1,3].a", "$.sm{\"k\"}.b", "$.im{5}", "$.ll[*][2]", "$.a64", "$.ml{\"q\"}[1].c")
+}
+func D_C14_6() string {
+	return zzJSONProbe(true, "$.x", "$.l[1,3].a", "$.sm{\"k\",\"z\"}.b", "$.im{5}", "$.in", "$.300{*}[1].70")
 }
